@@ -114,7 +114,10 @@ pub(crate) async fn git_cmd_rev_parse(
     work_path: &path::Path,
     reference: &str,
 ) -> Result<String, MonorailError> {
-    let mut child = get_git_cmd_child(git_path, work_path, &["rev-parse", reference]).await?;
+    // --verify: the argument must name an object; without it a file that happens to be called
+    // like the reference (`HEAD` in a repository without a commit) is echoed back as a path
+    let mut child =
+        get_git_cmd_child(git_path, work_path, &["rev-parse", "--verify", reference]).await?;
     let mut stdout_string = String::new();
     if let Some(mut stdout) = child.stdout.take() {
         stdout.read_to_string(&mut stdout_string).await?;
